@@ -42,6 +42,11 @@ def _has_quantifier(e):
     return found
 
 
+def unwrap_view(x):
+    from .views import unwrap
+    return unwrap(x)
+
+
 class Unsupported(Exception):
     def __init__(self, msg, node=None):
         self.node = node
@@ -620,6 +625,9 @@ class Exec:
             k = self.dict_key(idx, node)
             cont.d[k] = val
             return None
+        if isinstance(cont, ty.SeqV) and isinstance(idx, ty.SeqV) and idx.elem is ty.Bool:
+            from . import nplib
+            return nplib.seq_mask_store(self, st, cont, idx, val, node)
         if isinstance(cont, ty.SeqV):
             i = ty.to_z3num(idx)
             i = self.norm_index(i, cont.len)
@@ -948,6 +956,10 @@ class Exec:
             st.ghost["_iter"] = iter_seq        # the sequence being iterated (often an anonymous expression): visible to invariants as s._iter
         if spec.ghost is not None:
             st.ghost.update(spec.ghost(self.view(st)))
+        for gname, gt in spec.ghost_vars.items():
+            if gname not in st.ghost:
+                raise Unsupported(f"ghost loop variable {gname} has no initial value (LoopSpec.ghost)", s)
+            st.ghost[gname] = self.coerce(gt, self.to_storable(unwrap_view(st.ghost[gname])), s)
         for ln, lt_ in spec.locals.items():
             found, cur = st.lookup(ln)
             if found:
@@ -973,6 +985,11 @@ class Exec:
                     continue
                 raise Unsupported(f"cannot havoc loop-modified local {n}={cur!r}", s)
             h.assign(n, ty.fresh(t, n))
+        for gname, gt in spec.ghost_vars.items():
+            # ghost loop variables: arbitrary at the loop head (constrained by the invariant), updated by ghost_step at the end of an iteration
+            gv = ty.fresh(gt, gname)
+            self.assume_wf(h, gt, gv)
+            h.ghost[gname] = gv
         self.havoc_loop_heap(h, spec.modifies)
         if "alloc" in spec.modifies:
             h.alloc = z3.Const(ty.fresh_name("alloc"), z3.ArraySort(ty.RefSort, z3.BoolSort()))
@@ -1016,6 +1033,10 @@ class Exec:
                     if o2.kind in ("next", "continue"):
                         if kind == "for":
                             o2.st.assign(kname, o2.st.lookup(kname)[1] + 1)
+                        if spec.ghost_step is not None:
+                            upd = spec.ghost_step(self.view(head_st), self.view(o2.st))
+                            for gname, gval in upd.items():
+                                o2.st.ghost[gname] = self.coerce(spec.ghost_vars[gname], self.to_storable(unwrap_view(gval)), s)
                         if spec.step is not None:
                             for tag, g in self.eval_clauses(spec.step, self.view(head_st), self.view(o2.st)):
                                 self.oblige_clause(o2.st, f"{label}/step/{tag}", g, s)
